@@ -504,12 +504,18 @@ func (e *schedEnv) replay(b *schedBehaviour, raw []byte) bool {
 			}
 			if !p.atLocked {
 				r := e.waitArrive(p, "locked", 500*time.Millisecond)
-				for waited := 0; r == "timeout" && waited < 40; waited++ {
+				lockedFor := 0
+				for waited := 0; r == "timeout" && waited < 60; waited++ {
 					// nobody in this scheduler holds the file (the specification's lock is free and every session is ours):
-					// if the path stays locked, a descriptor that is no handle keeps the lock
-					pr := lockProbe(e.path)
+					// if the path stays locked for seconds while p does not come through, a descriptor that is no handle keeps
+					// the lock. (p itself may hold it for the instant between flock and the gate: hence several seconds.)
+					if lockProbe(e.path) == "locked" {
+						lockedFor++
+					} else {
+						lockedFor = 0
+					}
 					r = e.waitArrive(p, "locked", 500*time.Millisecond)
-					if r == "timeout" && pr == "locked" && lockProbe(e.path) == "locked" {
+					if r == "timeout" && lockedFor >= 6 {
 						break
 					}
 				}
